@@ -56,7 +56,16 @@ func main() {
 			os.Exit(2)
 		}
 		fmt.Printf("loaded in %d ms; emb types: %v\n", p.loadMs, keysOf(p.emb))
-		unit, err := p.verifyFunc(os.Args[3], nil)
+		var uo *UnitOpts
+		if len(os.Args) > 4 {
+			uo = &UnitOpts{ExtraRequires: os.Args[4:], NameSuffix: "/extra"}
+		}
+		for _, e := range strings.Split(os.Getenv("GOVC_EMB"), ",") {
+			if e != "" {
+				p.embAllowed[e] = true
+			}
+		}
+		unit, err := p.verifyFunc(os.Args[3], uo)
 		if err != nil {
 			fmt.Println("ERROR:", err)
 			if unit == nil {
